@@ -69,9 +69,27 @@ def classify(frames):
     return 'single', last
 
 
+def announced_lr(air):
+    """(LRi, LRt) as announced on the air: PPi of the ATR_REQ, PPt of the
+    ATR_RES actually transmitted (receiver's announcement; independent of
+    what either stack derived from it)"""
+    lri = lrt = None
+    for f in air.frames:
+        if f.pdu == 'ATR' and f.sender == 'I' and f.td_len >= 16:
+            lri = LR[(f.body[15] >> 4) & 3]
+        if f.pdu == 'ATR' and f.sender == 'T' and f.td_len >= 17:
+            lrt = LR[(f.body[16] >> 4) & 3]
+    return lri, lrt
+
+
 def check_frames(sx, air, lri, lrt, tag=""):
     """every frame on the air: start byte iff 106A, length byte, and the
-    transport data field within what the receiver announced"""
+    transport data field within what the receiver announced in its ATR"""
+    seen_lri, seen_lrt = announced_lr(air)
+    if seen_lri is None or seen_lrt is None:
+        sx.check(False, "air:no-attribute-exchange" + tag)
+    sx.check(seen_lri == LR[lri], "announced-lri-not-the-option" + tag)
+    sx.check(seen_lrt == LR[lrt], "announced-lrt-not-the-option" + tag)
     for f in air.frames:
         if f.sender == 'X':
             continue            # not sent by either side
@@ -81,7 +99,7 @@ def check_frames(sx, air, lri, lrt, tag=""):
         sx.check(f.length_byte_ok, "frame-format:%s:%s:length-byte" % (who, name))
         if f.pdu == 'ATR':
             continue            # sent before the limits are known (<= 64)
-        limit = LR[lrt] if f.sender == 'I' else LR[lri]
+        limit = seen_lrt if f.sender == 'I' else seen_lri
         sx.check(f.td_len <= limit, "frame-exceeds-lr:%s:%s%s" % (who, name, tag))
 
 
@@ -91,8 +109,9 @@ def conversation(sx, tech, brs, lri, lrt, did, nad, shapes, faults,
     """one conversation: activate both sides, n application exchanges in
     each direction under a fault script, release.
 
-    shapes: options; one option = [[ka, da, kb, db], ...]: the initiator's
-    payload k has length ka*miu_i + da, the target's reply kb*miu_t + db.
+    shapes: options; one option = [[ka, da, kb, db(, oa, ob)], ...]: the
+    initiator's payload k has length ka*miu_i + da, the target's reply
+    kb*miu_t + db (oa/ob = 1: in units of the other direction's MIU).
     foreign: None or dict(kinds, frame_did, budget): frames addressed to
     another device appear while the target waits (env.air arm_foreign)."""
     nfc.dep.os = _FixedOs
@@ -100,8 +119,12 @@ def conversation(sx, tech, brs, lri, lrt, did, nad, shapes, faults,
     n = len(shape)
     miu_i = nominal_miu(lrt, did, nad)      # initiator -> target
     miu_t = nominal_miu(lri, did, None)     # target -> initiator
-    A = [sx.bytes("a%d" % k, s[0] * miu_i + s[1]) for k, s in enumerate(shape)]
-    B = [sx.bytes("b%d" % k, s[2] * miu_t + s[3]) for k, s in enumerate(shape)]
+    # optional s[4], s[5] = 1: the length is counted in units of the MIU of
+    # the opposite direction (lengths around multiples of both MIUs)
+    A = [sx.bytes("a%d" % k, s[0] * (miu_t if len(s) > 4 and s[4] else miu_i) + s[1])
+         for k, s in enumerate(shape)]
+    B = [sx.bytes("b%d" % k, s[2] * (miu_i if len(s) > 5 and s[5] else miu_t) + s[3])
+         for k, s in enumerate(shape)]
 
     air = Air(sx, tech=tech, max_faults=faults, window=window)
     ini = Ini(IniClf(air))
@@ -353,6 +376,25 @@ def partitions(tier):
     for tech, brs in (('106A', 1), ('106A', 2), ('212F', 2), ('212F', 1)):
         conv("psl:%s:brs%d:f%d" % (tech, brs, 1 if quick else 2), [[M1 + M1]],
              1 if quick else 2, tech=tech, brs=brs)
+    # ---- PSL with different length reduction values on the two sides:
+    # lengths around multiples of both MIUs
+    def both(k, d):
+        return [[k, d, k, d], [k, d, k, d, 1, 1]]
+    pslcfg = (('106A', 1), ('106A', 2), ('212F', 2))
+    pairs = [(a, b) for a in range(4) for b in range(4) if a != b]
+    if quick:
+        pairs = [(3, 0), (0, 3), (2, 1), (1, 3), (3, 2), (0, 1)]
+    for i, (a, b) in enumerate(pairs):
+        for j, (tech, brs) in enumerate(pslcfg):
+            if quick and j != i % 3:
+                continue
+            for did in ((None, 6)[(i + j) & 1],) if quick else (None, 6):
+                shapes = [[x] for x in both(1, 0) + both(1, 1)]
+                if not quick:
+                    shapes += [[x] for x in both(2, 1)]
+                conv("psl-lr:%s:brs%d:%d.%d:%s:f1" % (
+                    tech, brs, a, b, "did" if did else "nodid"), shapes, 1,
+                    tech=tech, brs=brs, lri=a, lrt=b, did=did)
     # ---- DID and NAD in use
     conv("did:106A:f1", [[ONE + ONE], [M + M], [M1 + M2]], 1, did=1)
     conv("nad:106A:f1", [[ONE + ONE], [M + M], [M1 + M1]], 1, nad=2)
@@ -441,7 +483,9 @@ BOUNDS = {
     "framing; conversations of 2 and 3 exchanges (PNI wraps) with <= 2 / 1 "
     "faults; LR pairs (0,3) (1,2) (2,1) (3,0) (3,3) with lengths miu, miu+1 "
     "and 1 fault; PSL to 212F/424F; DID=1 and NAD=2 with 1 fault; RWT code "
-    "0 and 8; chained payloads of 2 and 3 frames starting at every PNI 0..3 "
+"0 and 8; PSL (106A->212F, 106A->424F, 212F->424F) with 6 pairs lri != lrt, "
+    "DID on/off alternating, payload lengths miu, miu+1 counted in both "
+    "sides' MIU, 1 fault; chained payloads of 2 and 3 frames starting at every PNI 0..3 "
     "(p single-frame exchanges first) initiator->target, target->initiator "
     "and both in one exchange, fault free (24 conversations, plus 5-frame "
     "payloads each way) and half of them with 1 fault: every (direction, "
@@ -457,7 +501,9 @@ BOUNDS = {
     "2..4 exchanges with <= 2 faults (<= 3 for five of them, <= 4 for two "
     "single exchanges), all 15 other "
     "LR pairs with 4 length shapes and <= 2 faults, PSL with <= 2 faults, "
-    "DID/NAD/DID+NAD also at 212F with <= 2 faults, RWT code 14, all PNI "
+    "DID/NAD/DID+NAD also at 212F with <= 2 faults, RWT code 14, all 12 "
+    "pairs lri != lrt x 3 PSL transitions x DID on/off with lengths miu, "
+    "miu+1, 2miu+1 in both sides' MIU and 1 fault, all PNI "
     "position conversations with 0 and 1 fault (half with 2), foreign "
     "frames in all three DID configurations with 1 fault, two foreign frames "
     "per conversation, and with 2 faults on a single chained exchange",
@@ -496,6 +542,9 @@ ASSUMPTIONS = [
     "(observed through a subclass that only counts calls); 'single fault per "
     "step' = at most one faulty frame among all frames of that step, "
     "recovery frames included",
+    "the frame length limit is taken from the PPi/PPt bytes of the ATR_REQ/"
+    "ATR_RES seen on the air (checked to be the options given), not from "
+    "either stack's miu; "
     "LR is the maximum length of the transport data field CMD0 CMD1 PFB "
     "[DID] [NAD] payload (LEN = LR+1 <= 255), so frame length <= LR + 1 "
     "(+1 start byte at 106A)",
